@@ -240,6 +240,21 @@ CHECKS = {
              "session run again prints the same and saving the loaded session gives the same text.",
         note="trusted: the library run as reference; the ASan build of the bloc executable; terminal colour codes are stripped",
         design="DESIGN.md section 4, C19"),
+    "C15": dict(
+        engine="E2 hist",
+        technique="exhaustive enumeration of precondition-respecting C API call sequences generated from a state-machine model of handles and ownership, executed on the real library under ASan/LSan and compared call by call with the model",
+        text="A model of two contexts, symbols A and B, three caller-owned values, two library-owned pointers, one expression and one executable drives 63 "
+             "operations: creation of values of every type including NULL payloads, store/load, assign, inspection by every typed accessor (match iff type, "
+             "NULL data iff null, table/tuple size and items, item access past the end), parse of 13 valid and 5 invalid texts with and without position "
+             "request, execute and execute2 in a clone, drop_returned, break/reset_stop, parse/type/evaluate of 6 valid and 2 invalid expressions, clone, free, "
+             "purge, purge_working_mem, register, find. All sequences of length <=2 over the full alphabet and <=3 over 20 core operations (quick); all "
+             "triples plus depth-4 extensions of model-distinct core triples (thorough). Library-owned pointers are re-read immediately before the next "
+             "call that ends their guaranteed life (ASan reports an early death); every sequence ends by freeing everything the caller owns, then "
+             "LeakSanitizer must be silent. In addition every rejected text of the C11 corpus (about 1 600 quick / 5 000 thorough truncations and "
+             "single-token corruptions) is parsed through bloc_parse_executable and bloc_parse_expression, the context must still run a valid program, "
+             "and no memory may remain after release.",
+        note="trusted: the handle/ownership model in vf/props/c15.py; ASan/LSan of clang 14 (a g++-only leak found by reading is recorded as fixed)",
+        design="DESIGN.md section 4, C15"),
 }
 
 NOT_YET = {}
